@@ -165,6 +165,20 @@ func genGroup(prop string, seed uint64) *Plan {
 				a.Ops = append(a.Ops, Op{Kind: "sleep", A: g.pick(1, 50, 500)})
 			}
 		}
+		if (prop == "C08" || prop == "C04") && g.pct(50) {
+			// partial polls around a paused partition: pause, a few small
+			// PollRecords, resume (the pattern repeats, so every pause is
+			// followed by its resume)
+			t := topics[g.R.Intn(len(topics))]
+			pp := g.rng(0, nparts-1)
+			kind := g.pickS("pause_p", "pause_p", "pause_t")
+			seq := []Op{{Kind: "poll", A: g.rng(1, 5), D: 500}, {Kind: kind, S: t, B: pp}}
+			for i := 0; i < int(g.rng(1, 4)); i++ {
+				seq = append(seq, Op{Kind: "poll", A: g.rng(1, 5), D: g.pick(200, 500)})
+			}
+			seq = append(seq, Op{Kind: "resume" + kind[5:], S: t, B: pp})
+			a.Ops = append(a.Ops, seq...)
+		}
 		g.P.Actors = append(g.P.Actors, a)
 	}
 	churn := Actor{Name: "churn", Client: "-"}
